@@ -151,6 +151,63 @@ Proof.
   rewrite (fold_ext_noskip want_max t x Ex). destruct (existsb (is_null o) t); [reflexivity|].
   destruct want_max; reflexivity.
 Qed.
+(* ... and over worker threads: when every piece holds an element (n_threads <= length), reducing the pieces without skipping
+   and then the piece results without skipping is the one-pass result - null if any element is null, else the maximum *)
+Lemma nn_clean l : existsb (is_null o) l = false -> nn l = l.
+Proof.
+  induction l as [|x t IH]; intros H; [reflexivity|]. cbn [existsb] in H. apply orb_false_iff in H. destruct H as [Hx Ht].
+  rewrite (nn_cons_val o) by exact Hx. now rewrite IH.
+Qed.
+
+Lemma existsb_concat (chunks : list (list V)) :
+  existsb (is_null o) (concat chunks) = existsb (fun c => existsb (is_null o) c) chunks.
+Proof. induction chunks as [|c t IH]; [reflexivity|]. cbn [concat existsb]. rewrite existsb_app, IH. reflexivity. Qed.
+
+Lemma max_exec_clean_nonnull l : l <> [] -> existsb (is_null o) l = false -> is_null o (max_exec o l) = false.
+Proof.
+  intros Hne Hc. assert (Hin : In (max_exec o l) l).
+  { pose proof (max_exec_is_max o L (nn l)) as H. rewrite (nn_clean l Hc) in H. apply H; [exact Hne|].
+    intros x Hx. destruct (is_null o x) eqn:E; [|reflexivity].
+    assert (existsb (is_null o) l = true) by (apply existsb_exists; exists x; auto). congruence. }
+  destruct (is_null o (max_exec o l)) eqn:E; [|reflexivity].
+  assert (existsb (is_null o) l = true) by (apply existsb_exists; exists (max_exec o l); auto). congruence.
+Qed.
+
+Theorem noskip_max_chunks (chunks : list (list V)) : chunks <> [] -> Forall (fun c => c <> []) chunks ->
+  nb_reduce o (op_max o) (map (fun c => nb_reduce o (op_max o) c false None) chunks) false None
+  = if existsb (is_null o) (concat chunks) then null o else max_exec o (concat chunks).
+Proof.
+  intros Hne Hall.
+  set (spec := fun c : list V => if existsb (is_null o) c then null o else max_exec o c).
+  assert (Hmap : map (fun c => nb_reduce o (op_max o) c false None) chunks = map spec chunks).
+  { apply map_ext_in. intros c Hc. rewrite Forall_forall in Hall. exact (noskip_ext_one_pass true c (Hall c Hc)). }
+  rewrite Hmap. rewrite (noskip_ext_one_pass true (map spec chunks)) by (destruct chunks; [congruence|discriminate]).
+  cbv iota. rewrite existsb_concat.
+  assert (Hex : existsb (is_null o) (map spec chunks) = existsb (fun c => existsb (is_null o) c) chunks).
+  { clear Hmap Hne. induction chunks as [|c t IH]; [reflexivity|]. cbn [map existsb].
+    inversion Hall as [|? ? Hc Ht]; subst. rewrite (IH Ht). f_equal. unfold spec.
+    destruct (existsb (is_null o) c) eqn:E; [exact null_is_null|]. apply max_exec_clean_nonnull; assumption. }
+  rewrite Hex. destruct (existsb (fun c => existsb (is_null o) c) chunks) eqn:E; [reflexivity|].
+  assert (Hclean : forall c, In c chunks -> existsb (is_null o) c = false).
+  { intros c Hc. destruct (existsb (is_null o) c) eqn:Ec; [|reflexivity].
+    assert (existsb (fun c => existsb (is_null o) c) chunks = true) by (apply existsb_exists; exists c; auto). congruence. }
+  assert (Hspec : map spec chunks = map (fun c => max_exec o (nn c)) chunks).
+  { apply map_ext_in. intros c Hc. unfold spec. rewrite (Hclean c Hc), (nn_clean c (Hclean c Hc)). reflexivity. }
+  assert (Hcc : existsb (is_null o) (concat chunks) = false) by (rewrite existsb_concat; exact E).
+  rewrite Hspec. rewrite <- (nn_clean (concat chunks) Hcc) at 1.
+  rewrite <- max_of_maxima. f_equal. symmetry. apply nn_clean. rewrite <- Hspec. exact Hex.
+Qed.
+
+Theorem noskip_max_any_threads arr n : (0 < n)%nat -> Forall (fun c => c <> []) (array_split arr n) ->
+  reduce_1d o (op_max o) (op_max o) None false false arr n
+  = if existsb (is_null o) arr then null o else max_exec o arr.
+Proof.
+  intros Hn Hall. unfold reduce_1d. destruct (n =? 1)%nat eqn:E1.
+  - apply Nat.eqb_eq in E1. subst n. apply (noskip_ext_one_pass true).
+    intros ->. unfold array_split, array_split_sizes in Hall. cbn in Hall. inversion Hall; congruence.
+  - rewrite noskip_max_chunks; [now rewrite array_split_concat| |exact Hall].
+    intros E. pose proof (array_split_length arr n) as Hl. rewrite E in Hl. cbn in Hl. lia.
+Qed.
 End NMax.
 
 (* nan-min is nan-max for the reversed order *)
@@ -158,3 +215,11 @@ Theorem nanmin_any_threads {V} (o : ops V) (L : laws o)
   (null_unique : forall x, is_null o x = true -> x = null o) (null_is_null : is_null o (null o) = true) arr n :
   (0 < n)%nat -> nan_reduce o NMin arr n = min_exec o (nonnull o arr).
 Proof. exact (nanmax_any_threads (flip o) (flip_laws o L) null_unique null_is_null arr n). Qed.
+
+(* the non-skipping minimum is the non-skipping maximum for the reversed order *)
+Theorem noskip_min_any_threads {V} (o : ops V) (L : laws o)
+  (null_unique : forall x, is_null o x = true -> x = null o) (null_is_null : is_null o (null o) = true) arr n :
+  (0 < n)%nat -> Forall (fun c => c <> []) (array_split arr n) ->
+  reduce_1d o (op_min o) (op_min o) None false false arr n
+  = if existsb (is_null o) arr then null o else min_exec o arr.
+Proof. exact (noskip_max_any_threads (flip o) (flip_laws o L) null_unique null_is_null arr n). Qed.
